@@ -372,7 +372,7 @@ func monoStages(cc *CheckCtx) []monoStage {
 			return []CaseGoal{leqGoal("31", "(CVSS31).EnvironmentalScore", "more_severe_not_lower", resultTerm(frA), resultTerm(frB))}, insts
 		}})
 	for _, variant := range []struct{ name, tier, space string }{
-		{"inner-stage-steps[equal requirements]", "quick", "7776 effective classes (8 effective metrics x CR=IR=AR in {L,M,H}; the thorough tier covers all 165888) x one-step increases of any of the 11 metrics: zero-impact flag and inner Roundup value"},
+		{"inner-stage-steps[equal requirements]", "quick", "effective classes with CR=IR=AR in {L,M,H} plus all requirement triples for three exploitability classes (about 17000 of 165888; the thorough tier covers all) x one-step increases of any of the 11 metrics: zero-impact flag and inner Roundup value"},
 		{"inner-stage-steps", "thorough", "165888 effective classes (8 effective metrics x CR,IR,AR) x one-step increases: zero-impact flag and inner Roundup value"},
 	} {
 		variant := variant
@@ -384,7 +384,8 @@ func monoStages(cc *CheckCtx) []monoStage {
 				if variant.tier == "quick" {
 					keep = func(codes map[string]int) bool {
 						val := func(m string) string { return scA.rp.Field(m).Codes[codes[m]] }
-						return val("CR") == val("IR") && val("IR") == val("AR") && val("CR") != "X"
+						expl := val("AV") + val("AC") + val("PR") + val("UI")
+						return (val("CR") == val("IR") && val("IR") == val("AR") && val("CR") != "X") || expl == "NLNN" || expl == "PHHR" || expl == "ALLN"
 					}
 				}
 				insts := objectPairsF(frA, frB, scA, metrics, keep, fixedAt(scA.rp, append(append([]string{}, v3Modified...), v3Temporal...), "X"))
